@@ -125,5 +125,67 @@ def rsCar {α : Type} [OmplModel.RS.RSNum α] (rho : α) : Car (Pose α) (OmplMo
 /-- a default-constructed `DubinsPath` (word LSL, lengths 0, DBL_MAX, 0): never read by the code while `firstTime` holds -/
 def dubinsDefault {α : Type} [DNum α] : Path α := ⟨.LSL, 0, 0, 0, false⟩
 
+/-! ### wrappers and compounds that contain car-like leaves
+
+`Space` (Model/Space.lean, shared) has no car-like constructor, so the recursion of `CompoundStateSpace::interpolate` /
+`WrapperStateSpace::interpolate` is repeated over `XSpace`: the same `nil / cons w head tail / wrap` skeleton whose leaves are
+either a car-free `Space` (interpolated by `interpolateTree`, the model of the rest of this engine) or a Dubins / Reeds-Shepp
+space (interpolated by `direct`: the component's 4-argument virtual `interpolate` is what the compound calls).  States are the
+shared `St`: a car-like state is the SE(2) compound `[rv [x, y], so2 yaw]` its C++ state type is. -/
+
+inductive XSpace (α : Type) where
+  | base (s : Space α)
+  | dubins (rho : α) (sym : Bool) (lo hi : List α)
+  | rs (rho : α) (lo hi : List α)
+  | xnil
+  | xcons (w : α) (head tail : XSpace α)
+  | wrap (s : XSpace α)
+deriving Inhabited
+
+def poseOf {α : Type} : St α → Option (Pose α)
+  | .ccons (.rv [x, y]) (.ccons (.so2 th) .cnil) => some ⟨x, y, th⟩
+  | _ => none
+
+def stOf {α : Type} (p : Pose α) : St α := .ccons (.rv [p.x, p.y]) (.ccons (.so2 p.th) .cnil)
+
+/-- the SE(2) compound a car-like space is (bounds of the position part; weights 1 and 0.5 as `SE2StateSpace` sets them) -/
+def se2Space {α : Type} [Num α] (lo hi : List α) : Space α := .ccons 1 (.rv lo hi) (.ccons (Num.ofDec 5 1) .so2 .cnil)
+
+/-- `StateSpace::interpolate(from, to, t, state)` through wrappers and compounds down to the leaves; `none` = a planner without a path -/
+def xinterp {α : Type} [OmplModel.RS.RSNum α] : XSpace α → St α → St α → α → Option (St α)
+  | .base s, a, b, t => some (interpolateTree s a b t)
+  | .dubins rho sym _ _, a, b, t =>
+    match poseOf a, poseOf b with
+    | some pa, some pb => (direct clsNum (dubinsCar rho sym) dubinsDefault pa pb t).map stOf
+    | _, _ => none
+  | .rs rho _ _, a, b, t =>
+    match poseOf a, poseOf b with
+    | some pa, some pb => (direct clsNum (rsCar rho) ⟨0, 0, 0, 0, 0, 0⟩ pa pb t).map stOf
+    | _, _ => none
+  | .xnil, .cnil, .cnil, _ => some .cnil
+  | .xcons _ h tl, .ccons ah at', .ccons bh bt, t =>
+    match xinterp h ah bh t, xinterp tl at' bt t with
+    | some rh, some rt => some (.ccons rh rt)
+    | _, _ => none
+  | .wrap s, a, b, t => xinterp s a b t
+  | _, _, _, _ => none
+
+/-- `satisfiesBounds` through the same recursion -/
+def xinBounds {α : Type} [Num α] : XSpace α → St α → Bool
+  | .base s, a => inBounds s a
+  | .dubins _ _ lo hi, a => inBounds (se2Space lo hi) a
+  | .rs _ lo hi, a => inBounds (se2Space lo hi) a
+  | .xnil, .cnil => true
+  | .xcons _ h tl, .ccons ah at' => xinBounds h ah && xinBounds tl at'
+  | .wrap s, a => xinBounds s a
+  | _, _ => false
+
+/-- a car-free `Space` seen through the `XSpace` skeleton (compounds and wrappers opened, everything else a `base` leaf) -/
+def embed {α : Type} : Space α → XSpace α
+  | .cnil => .xnil
+  | .ccons w h t => .xcons w (embed h) (embed t)
+  | .wrap s => .wrap (embed s)
+  | s => .base s
+
 end
 end OmplModel.SpaceInterp.Car
